@@ -17,6 +17,7 @@ import (
 	"github.com/postalsys/muti-metroo/internal/agent"
 	"github.com/postalsys/muti-metroo/internal/c21kit"
 	"github.com/postalsys/muti-metroo/internal/config"
+	"github.com/postalsys/muti-metroo/internal/sleep"
 	"github.com/postalsys/muti-metroo/internal/verifkit"
 )
 
@@ -43,6 +44,8 @@ func TestVerif_C21Live(t *testing.T) {
 	var aborted atomic.Bool
 	// startAgent builds and starts a real agent for one auth section and returns its SOCKS5
 	// endpoints as a target whose executed CONNECTs are the connections arriving at the sink.
+	var lastAgent *agent.Agent // the agent most recently started by startAgent
+	var tweak func(*config.Config)
 	startAgent := func(i int, phase string, auth config.SOCKS5AuthConfig, withExit bool) (*c21kit.Target, func(), bool) {
 		var a *agent.Agent
 		var wsAddr string
@@ -64,6 +67,9 @@ func TestVerif_C21Live(t *testing.T) {
 				// a local exit route makes UDP ASSOCIATE succeed on a standalone agent
 				cfg.Exit.Enabled = true
 				cfg.Exit.Routes = []string{"0.0.0.0/0"}
+			}
+			if tweak != nil {
+				tweak(cfg)
 			}
 			ag, err := agent.New(cfg)
 			if err == nil {
@@ -89,6 +95,7 @@ func TestVerif_C21Live(t *testing.T) {
 				r.Add("agent_stop_timeouts", 1)
 			}
 		}
+		lastAgent = a
 		r.Add("agents_started", 1)
 		if withExit {
 			r.Add("agents_with_local_exit", 1)
@@ -144,6 +151,80 @@ func TestVerif_C21Live(t *testing.T) {
 		x := &c21kit.Runner{R: r, Phase: "conc", Case: i, S: setup, T: tgt, Aborted: &aborted}
 		x.ConcurrentRounds(rng, r.N(8, 30))
 	})
+	// phase 3: agent lifecycle. With sleep mode enabled the client matrix is run before and after
+	// k = 1..3 sleep -> wake cycles of the running agent (the SOCKS5 listener is stopped on sleep
+	// and brought up again on wake; its address is re-read). Oracle unchanged.
+	tweak = func(cfg *config.Config) {
+		cfg.Sleep.Enabled = true
+		cfg.Sleep.PollInterval = time.Hour // nothing else happens while asleep
+		cfg.Sleep.PollDuration = time.Second
+		cfg.Sleep.PersistState = false
+	}
+	r.Cases("lifecycle", r.N(8, 80), func(i int, rng *verifkit.Rand) {
+		if aborted.Load() {
+			return
+		}
+		// enforced configurations only (i%10 == 9 is the open control group)
+		ci := i
+		if ci%10 == 9 {
+			ci++
+		}
+		auth, setup := c21kit.GenAgentAuth(rng, ci)
+		tgt, stop, ok := startAgent(i, "lifecycle", auth, rng.Bool())
+		if !ok {
+			return
+		}
+		defer stop()
+		a := lastAgent
+		x := &c21kit.Runner{R: r, Phase: "lifecycle", Case: i, S: setup, T: tgt, Aborted: &aborted}
+		x.Workload(rng, 10)
+		cycles := rng.Range(1, 3)
+		for c := 0; c < cycles && !aborted.Load(); c++ {
+			if err := a.TriggerSleep(); err != nil {
+				r.Inconclusive(fmt.Sprintf("lifecycle:%d TriggerSleep: %v", i, err))
+				return
+			}
+			if a.GetSleepState() == sleep.StateAwake {
+				r.Inconclusive(fmt.Sprintf("lifecycle:%d agent did not fall asleep", i))
+				return
+			}
+			r.Add("sleeps", 1)
+			// TriggerWake wakes locally first and then keeps flooding the wake command for
+			// 2*poll_interval; only the local wake matters here
+			go a.TriggerWake()
+			deadline := time.Now().Add(c21kit.Watchdog)
+			up := false
+			for time.Now().Before(deadline) {
+				if a.GetSleepState() == sleep.StateAwake {
+					if addr := a.SOCKS5Address(); addr != nil {
+						if c, err := net.DialTimeout("tcp", addr.String(), time.Second); err == nil {
+							c.Close()
+							up = true
+							break
+						}
+					}
+				}
+				time.Sleep(5 * time.Millisecond)
+			}
+			if !up {
+				r.Inconclusive(fmt.Sprintf("lifecycle:%d SOCKS5 listener did not come back after wake within %v", i, c21kit.Watchdog))
+				return
+			}
+			r.Add("wakes", 1)
+			// the WebSocket listener is not restarted on wake: TCP only from here on
+			after := *tgt
+			after.TCPAddr = a.SOCKS5Address().String()
+			after.WSAddr = ""
+			after.Events() // the readiness probe connection executed nothing; reset
+			xa := &c21kit.Runner{R: r, Phase: "lifecycle", Case: i, S: setup, T: &after, Aborted: &aborted, Stage: "after-wake"}
+			before := r.Counter("transcripts")
+			xa.Workload(rng, 16)
+			r.Add("transcripts_after_wake", int(r.Counter("transcripts")-before))
+		}
+	})
+	tweak = nil
+	r.Require("wakes", 8)
+	r.Require("transcripts_after_wake", 100)
 	r.Require("concurrent_rounds", 10)
 	r.Require("concurrent_rounds_overlapped", 6)
 	r.Require("agents_started", 10)
